@@ -1194,7 +1194,16 @@ fn designator_to_asg(
     match get_ast_designator_expression(designator) {
         Some(synast::Expr::Literal(ref literal)) => {
             match literal.kind() {
-                synast::LiteralKind::IntNumber(int_num) => Some(int_num.value().unwrap() as u32),
+                synast::LiteralKind::IntNumber(int_num) => {
+                    // The width is stored in 32 bits. Don't truncate a larger literal to another number.
+                    match u32::try_from(int_num.value().unwrap()) {
+                        Ok(width) => Some(width),
+                        Err(_) => {
+                            context.insert_error(InvalidDesignatorError, literal);
+                            Some(0)
+                        }
+                    }
+                }
                 _ => {
                     // FIXME: This error should be done when validating syntax. Before the semantic analysis
                     context.insert_error(ConstIntegerError, literal);
